@@ -153,6 +153,18 @@ def mc(d, sc, mut="none", tag=""):
     return mcgen.write_mc(d, sc["name"] + tag, "RepoImpl", consts, invariants=("PresentIff", "NoCrash", "NoStuck"), properties=("Refines",))
 
 
+def load_meta(path):
+    """Per-execution records written by the harness; a harness that died leaves a truncated last line."""
+    out = []
+    if os.path.exists(path):
+        for l in open(path):
+            try:
+                out.append(json.loads(l))
+            except ValueError:
+                pass
+    return out
+
+
 def collect(ctx, exe, mode, sc, arg, kind, executions, timeout=900):
     base = os.path.join(ctx.scratch, "%s.%s" % (sc["name"], kind))
     scf = base + ".scn"
@@ -164,7 +176,7 @@ def collect(ctx, exe, mode, sc, arg, kind, executions, timeout=900):
         exs.append([{"e": "Crash", "rc": str(rc), "stderr": err[-300:]}])
     for e in exs:
         executions.append((sc["name"], kind, e))
-    return [json.loads(l) for l in open(meta)] if os.path.exists(meta) else []
+    return load_meta(meta)
 
 
 def sched_of(labels):
@@ -268,9 +280,12 @@ def run(ctx):
         total_sched += len(scheds)
         info = {"name": sc["name"], "threads": sc["threads"], "model_states": len(g.nodes), "model_paths_total": total,
                 "replayed": len(scheds), "exhaustive": exhaustive}
-        metas = collect(ctx, exe, "explore", sc, str(6000 if ctx.quick else 500000), "explore", executions, timeout=1500)
-        last = metas[-1] if metas else {}
-        info.update({"code_interleavings": last.get("explored"), "code_exhaustive": last.get("exhaustive")})
+        # exhaustive exploration on the code.  Not for three-thread random programs: two threads waiting (spinning) for a
+        # create of the third can wake each other for ever under the scheduler's lowest-eligible-thread default.
+        if len(sc["threads"]) <= 2 or not sc["name"].startswith("rnd"):
+            metas = collect(ctx, exe, "explore", sc, str(6000 if ctx.quick else 500000), "explore", executions, timeout=1500)
+            last = metas[-1] if metas else {}
+            info.update({"code_interleavings": last.get("explored"), "code_exhaustive": last.get("exhaustive")})
         ctx.extra.setdefault("scenarios", []).append(info)
     for sc in STRESS + [byname["twocreators"], byname["racecreate"]]:
         collect(ctx, exe, "stress", sc, str(150 if ctx.quick else 10000), "stress", executions)
